@@ -441,7 +441,8 @@ def grid_fields(part, arg, versions):
 
 
 def discover_and_query(part):
-    menu = [(1, 0), (1, 2), (2, 0), (1, 4), (9, 9), (1, 5), (0, 9)]
+    # (1, 10), (1, 40), (2, 00): versions that merely LOOK like supported ones when read as decimals
+    menu = [(1, 0), (1, 2), (2, 0), (1, 4), (9, 9), (1, 5), (0, 9), (1, 10), (1, 40), (20, 0)]
     for version in W.VERSIONS[1:]:
         w = base().clone()
         try:
